@@ -465,3 +465,45 @@ def own_nodes(f: FuncInfo):
 
 def own_returns(f: FuncInfo) -> list[ast.Return]:
     return [n for n in own_nodes(f) if isinstance(n, ast.Return)]
+
+
+def constructions(ctx, f: FuncInfo, roots, ctor_last: str) -> list[tuple[ast.AST, dict[str, ast.expr]]]:
+    """Constructions `<...>.<ctor_last>(kw=...)` found under `roots` (ast nodes of f), directly or through a local / private helper that returns
+    such a construction: [(call site node in f, {keyword: value expression as seen from f})]."""
+    import copy
+
+    out = []
+    for root in roots:
+        for c in ast.walk(root):
+            if not isinstance(c, ast.Call):
+                continue
+            d = dotted(c.func) or ""
+            if d.split(".")[-1] == ctor_last:
+                out.append((c, {k.arg: k.value for k in c.keywords if k.arg}))
+                continue
+            for cal in ctx.res.callees(f, c, record=False):
+                if isinstance(cal.node, ast.Lambda) or not (cal.parent is f or (cal.cls is not None and f.cls is not None and cal.cls.qualname == f.cls.qualname)):
+                    continue
+                for r in own_returns(cal):
+                    v = r.value
+                    if isinstance(v, ast.Call) and (dotted(v.func) or "").split(".")[-1] == ctor_last:
+                        binding = bind_call(cal, c)
+
+                        class T(ast.NodeTransformer):
+                            def visit_Name(self, node):
+                                if isinstance(node.ctx, ast.Load) and node.id in binding:
+                                    return copy.deepcopy(binding[node.id])
+                                return node
+
+                        out.append((c, {k.arg: T().visit(copy.deepcopy(k.value)) for k in v.keywords if k.arg}))
+    return out
+
+
+def values_under(g, f: FuncInfo, e: ast.AST | None, reach: set[int]) -> list[ast.AST]:
+    """The expressions `e` can stand for on the paths in `reach`: for a local assigned in several branches, the values stored on reachable nodes."""
+    if e is None:
+        return []
+    if isinstance(e, ast.Name) and len(local_defs(f, e.id)) > 1:
+        vals = [s.meta.get("value") for s in g.nodes if s.kind == "store" and s.target == e.id and s.id in reach and s.func is f and s.meta.get("value") is not None]
+        return vals or [e]
+    return [inline_locals(f, e) or e]
